@@ -12,6 +12,8 @@ for p in props:
     try:
         m = importlib.import_module(pid.lower())
         meta = m.META
+        if not meta.get("claim", True):
+            raise AttributeError
     except (ModuleNotFoundError, AttributeError):
         na.append({"property_id": pid, "reason": "not reached yet: the Coq model and correspondence check for this property are not built; claimed by no other technique"})
         continue
